@@ -162,6 +162,11 @@ def check_typestate(R, E, F, roles, state_adt, fn, paths, rule='C01.I1'):
                                 r = E.known(path.facts, e['ret'])
                                 if r and r[0] == 'eq' and not r[1]:
                                     bad = ('unlink-of-non-member-panics', e)
+                                elif r and r[0] == 'eq' and r[1]:
+                                    # the unlink succeeded on this (feasible) path and the function panics anyway
+                                    nxt = [x for x in path.events[path.events.index(e):] if x['k'] == 'panic']
+                                    if nxt and nxt[0].get('what') != 'unwrap(None)':
+                                        bad = ('panics-although-unlink-succeeded', e)
                     if bad:
                         problems.append((fair, v0, bad))
             role = 'own:' + root[0][1] if info['own'] else 'token:' + qname
